@@ -222,9 +222,22 @@ pub struct DateOffset {
 }
 
 impl DateOffset {
+    /// Apply the offset to a date, the result saturates to the bounds of representable dates if
+    /// the offset is too big.
     #[inline]
-    pub fn apply(&self, mut date: NaiveDate) -> NaiveDate {
-        date += Duration::days(self.day_offset);
+    pub fn apply(&self, date: NaiveDate) -> NaiveDate {
+        self.checked_apply(date).unwrap_or({
+            if self.day_offset < 0 {
+                NaiveDate::MIN
+            } else {
+                NaiveDate::MAX
+            }
+        })
+    }
+
+    #[inline]
+    fn checked_apply(&self, mut date: NaiveDate) -> Option<NaiveDate> {
+        date = date.checked_add_signed(Duration::try_days(self.day_offset)?)?;
 
         match self.wday_offset {
             WeekDayOffset::None => {}
@@ -233,7 +246,7 @@ impl DateOffset {
                     - target.days_since(Weekday::Mon))
                     % 7;
 
-                date -= Duration::days(diff.into());
+                date = date.checked_sub_signed(Duration::days(diff.into()))?;
                 debug_assert_eq!(date.weekday(), target);
             }
             WeekDayOffset::Next(target) => {
@@ -241,12 +254,12 @@ impl DateOffset {
                     - date.weekday().days_since(Weekday::Mon))
                     % 7;
 
-                date += Duration::days(diff.into());
+                date = date.checked_add_signed(Duration::days(diff.into()))?;
                 debug_assert_eq!(date.weekday(), target);
             }
         }
 
-        date
+        Some(date)
     }
 }
 
